@@ -19,4 +19,10 @@ CHECKS["C30"] = dict(level="model_checking", technique="TLC model checking of Pr
          "and the deterministic replay of the counterexample of the pinned wait()) are validated against the same specification.",
     note="Trusted: hook placement, O_APPEND ordering; the child's exit is inferred from the reaping event. The use-after-free "
          "between treatAction and ~ProcessManager is a recorded known finding (not repaired).", ref="8/C30")
+CHECKS["C01"] = dict(level="exploration", technique="TLC-generated exhaustive lattice + exact integer oracle (Mat3.tla) judged by TLC",
+    text="Every symmetric tensor with components in -2..2 (N=1,2,3), rescaled by 2^+-40 and 2^+-300, every pair over -1..1 x a basis, "
+         "24 cube rotations and all integer quaternions in -2..2 are replayed through the real stensor operations; TLC compares "
+         "each abstracted result with the exact integer value computed from the 3x3 matrix meaning.",
+    note="Trusted: harness abstraction (round to nearest integer after exact power-of-two rescaling, tolerance 1e-9); oracle theorems "
+         "(adjugate, Cayley-Hamilton, orthogonality) are checked by TLC on the lattice.", ref="8/C01")
 NOT_APPLICABLE = {}
